@@ -1032,7 +1032,11 @@ class DataType(object):
                         "Must have %s fractional digits." %
                         (self.type, value, split_data_type[3])
                     )
-                if int(integral) == 0 and int(fractional) == 0 and integral[:1] in ('+', '-'):
+                if not re.match(r'^[+-]?\d+$', integral) or not re.match(r'^\d*$', fractional):
+                    raise EDXMLEventValidationError(
+                        "Invalid value string for data type %s: '%s'. " % (self.type, value)
+                    )
+                if int(integral) == 0 and int(fractional or '0') == 0 and integral[:1] in ('+', '-'):
                     raise EDXMLEventValidationError(
                         "Invalid value string for data type %s: '%s'. "
                         "Zero must not have any sign." %
@@ -1079,7 +1083,11 @@ class DataType(object):
                         "Must have four fractional digits." %
                         (self.type, value)
                     )
-                if int(integral) == 0 and int(fractional) == 0 and integral[:1] in ('+', '-'):
+                if not re.match(r'^[+-]?\d+$', integral) or not re.match(r'^\d*$', fractional):
+                    raise EDXMLEventValidationError(
+                        "Invalid value string for data type %s: '%s'. " % (self.type, value)
+                    )
+                if int(integral) == 0 and int(fractional or '0') == 0 and integral[:1] in ('+', '-'):
                     raise EDXMLEventValidationError(
                         "Invalid value string for data type %s: '%s'. "
                         "Zero must not have any sign." %
